@@ -1066,7 +1066,7 @@ impl World {
             }
             _ => panic!("unknown call kind {kind}"),
         }));
-        let disarmed = disarm_fault();
+        let disarmed = disarm_fault() | crate::heap::disarm_dfault();
         let panicked = r.is_err();
         let msg = r.err().map(|e| panic_message(&*e)).unwrap_or_default();
         self.drain_releases();
@@ -1140,6 +1140,7 @@ impl World {
             ev!("{{\"ev\":\"drop_begin\",\"a\":{},{}}}", self.st.id, self.state_fields());
             let arena = self.arena.take().unwrap();
             let r = catch_unwind(AssertUnwindSafe(|| drop(arena)));
+            crate::heap::disarm_dfault();
             self.drain_releases();
             ev!(
                 "{{\"ev\":\"drop_end\",\"a\":{},\"panicked\":{},\"count\":{},\"debtQ\":{},\"outstanding\":{}}}",
@@ -1205,7 +1206,30 @@ pub fn failed_new(_serial_base: u32, n: usize, mode: &str) {
     ev!("{{\"ev\":\"cb_begin\",\"a\":{},\"kind\":\"new\",\"label\":\"{}\"}}", id, mode);
     let stp = &mut st;
     let r = catch_unwind(AssertUnwindSafe(|| {
-        if mode == "panic" {
+        if mode == "rootless" {
+            // arena::rootless_mutate: a context without a root; nothing is collected while the callback runs
+            // (whatever it allocates, links, downgrades and upgrades), everything is when it returns
+            gc_arena::arena::rootless_mutate(|mc| {
+                let mut found: Found<'_> = HashMap::new();
+                let mut prev: Option<(u32, Ptr<'_>)> = None;
+                for i in 0..n {
+                    let name = format!("x{i}");
+                    let p = stp.alloc(mc, Kind::N, &name);
+                    let s = stp.serial_of(&name).unwrap();
+                    if let Some((ps, pp)) = prev {
+                        stp.store(mc, s, p, ps, pp, if i % 2 == 0 { "borrow_mut" } else { "fwd_none" });
+                        stp.wstore(mc, ps, pp, s, p, "back_weak");
+                        let up = p.downgrade().upgrade(mc);
+                        ev!("{{\"ev\":\"weak\",\"a\":{},\"h\":{},\"t\":{},\"block\":true,\"some\":{},\"dropped\":{}}}",
+                            id, ps, s, up.is_some(), p.downgrade().is_dropped());
+                    }
+                    found.insert(s, p);
+                    prev = Some((s, p));
+                }
+                stp.recheck(&found);
+                stp.unwind_point(true);
+            });
+        } else if mode == "panic" {
             let _a = MyArena::new(|mc| {
                 let mut root = Root { strong: Vec::new(), weak: Vec::new(), sets: Vec::new() };
                 for i in 0..n {
